@@ -32,14 +32,14 @@ type Site struct {
 	Props []string // properties this row serves (C05 always; C01, C06 for some)
 }
 
-func successReturn(fn *ssa.Function) (*ssa.Return, error) {
+func successVRet(fn *ssa.Function) (*VRet, error) {
 	ei := errorResultIndex(fn.Signature)
-	var cands []*ssa.Return
+	var cands []VRet
 	for _, r := range returnsOf(fn) {
 		if ei >= 0 && !isNilConst(resultsOf(r)[ei]) {
 			continue
 		}
-		cands = append(cands, r)
+		cands = append(cands, VRet{Ret: r, Block: r.Block(), Results: resultsOf(r)})
 	}
 	if len(cands) == 0 {
 		// tail call: all results forwarded from one call
@@ -55,14 +55,34 @@ func successReturn(fn *ssa.Function) (*ssa.Return, error) {
 				call = ex.Tuple
 			}
 			if ok {
-				cands = append(cands, r)
+				cands = append(cands, VRet{Ret: r, Block: r.Block(), Results: resultsOf(r)})
+			}
+		}
+	}
+	if len(cands) == 0 && ei >= 0 {
+		// exits merged into one return: the incoming way whose error is nil
+		for _, v := range virtualReturns(fn) {
+			if isNilConst(v.Results[ei]) {
+				cands = append(cands, v)
 			}
 		}
 	}
 	if len(cands) != 1 {
 		return nil, fmt.Errorf("%d success returns", len(cands))
 	}
-	return cands[0], nil
+	return &cands[0], nil
+}
+
+// successReturn: the success return as an instruction (merged exits are not told apart here).
+func successReturn(fn *ssa.Function) (*ssa.Return, error) {
+	v, err := successVRet(fn)
+	if err != nil {
+		return nil, err
+	}
+	if v.Block != v.Ret.Block() {
+		return nil, fmt.Errorf("0 success returns")
+	}
+	return v.Ret, nil
 }
 
 func nthCall(fn *ssa.Function, spec string) (ssa.CallInstruction, error) {
@@ -117,14 +137,14 @@ func (p *Program) Extract(s Site) (val string, pos string, fn *ssa.Function, err
 	switch parts[0] {
 	case "ret":
 		k, _ := strconv.Atoi(parts[1])
-		ret, e := successReturn(fn)
+		ret, e := successVRet(fn)
 		if e != nil {
 			return "", "", fn, e
 		}
 		if k >= len(ret.Results) {
 			return "", "", fn, fmt.Errorf("no result %d", k)
 		}
-		return short(tb.Term(resultsOf(ret)[k]).String()), p.pos(instrPos(ret)), fn, nil
+		return short(tb.Term(ret.Results[k]).String()), p.pos(instrPos(ret.Ret)), fn, nil
 	case "arg":
 		i := strings.LastIndex(parts[1], ":")
 		if i < 0 {
@@ -174,11 +194,11 @@ func (p *Program) Extract(s Site) (val string, pos string, fn *ssa.Function, err
 			return "", "", fn, fmt.Errorf("fewer than %d error returns", n)
 		}
 		if parts[1] == "ret" {
-			ret, e := successReturn(fn)
+			ret, e := successVRet(fn)
 			if e != nil {
 				return "", "", fn, e
 			}
-			return sortedFacts(tb.FactsAt(ret.Block())), p.pos(instrPos(ret)), fn, nil
+			return sortedFacts(tb.FactsAt(ret.Block)), p.pos(instrPos(ret.Ret)), fn, nil
 		}
 		c, e := nthCall(fn, parts[1])
 		if e != nil {
